@@ -114,7 +114,7 @@ Proof.
   rewrite lookup_app. destruct (lookup fs (s :: p)); auto. discriminate.
 Qed.
 
-Lemma lookup_filter_keep : forall (f : path * bool -> bool) fs p,
+Lemma lookup_filter_keep : forall (f : path * fkind -> bool) fs p,
   (forall k, f (p, k) = true) -> lookup (filter f fs) p = lookup fs p.
 Proof.
   intros f fs p H. induction fs as [|[q k] fs IH]; simpl; auto.
@@ -123,7 +123,7 @@ Proof.
   - destruct (f (q, k)); simpl; [rewrite E|]; exact IH.
 Qed.
 
-Lemma lookup_filter_drop : forall (f : path * bool -> bool) fs p,
+Lemma lookup_filter_drop : forall (f : path * fkind -> bool) fs p,
   (forall k, f (p, k) = false) -> lookup (filter f fs) p = None.
 Proof.
   intros f fs p H. induction fs as [|[q k] fs IH]; simpl; auto.
@@ -244,8 +244,9 @@ Lemma ocfn_step : forall (Q : path -> Prop) w p w',
 Proof.
   intros Q w p w' H HQ. unfold ocfn in H. destruct p as [|s p]; [discriminate|].
   unfold exists_ in HQ.
-  destruct (lookup (w_fs w) (s :: p)) as [[|]|].
+  destruct (lookup (w_fs w) (s :: p)) as [[| |]|].
   - inversion H; subst. apply step_refl.
+  - discriminate.
   - discriminate.
   - destruct (isdir (w_fs w) (dirname (s :: p))); [|discriminate].
     inversion H; subst. apply step_mkfile. now apply HQ.
@@ -466,47 +467,49 @@ Definition Cof (c : config) (p q : path) : Prop :=
 Lemma Cof_upward : forall c p, upward (Cof c p).
 Proof. intros c p a b H P. unfold Cof in *. destruct (c_temp c); eapply prefix_trans; eauto. Qed.
 
-Theorem clear_effects : forall c p w r w',
+Lemma clear_end_step : forall c p w w1,
   (c_temp c = true -> inside (c_tmp c) p) ->
-  clear c p w = (r, w') -> step_ok (Cof c p) w w'.
+  clear_end c p w = Ok w1 -> step_ok (Cof c p) w w1.
 Proof.
-  intros c p w r w' Hin H. unfold clear in H.
+  intros c p w w1 Hin E1. unfold clear_end in E1.
   pose proof (Cof_upward c p) as U.
   assert (Qp : Cof c p p).
   { unfold Cof. destruct (c_temp c) eqn:Et; [apply inside_prefix; auto | apply prefix_refl]. }
   assert (Qd : c_temp c = true -> Cof c p (dirname p)).
   { intros Et. unfold Cof. rewrite Et. destruct (Hin Et) as (s & t & ->). apply dirname_prefix. }
-  assert (Qt : c_temp c = true -> Cof c p (c_tmp c)).
-  { intros Et. unfold Cof. rewrite Et. apply prefix_refl. }
-  set (r1 := if exists_ (w_fs w) p
-             then if isfile (w_fs w) p
-                  then Ok (if c_temp c then do_rmtree (do_remove w p) (dirname p) else do_remove w p)
-                  else if c_ext c then Exc OSErr else Ok (do_rmtree w p)
-             else Ok w) in *.
-  assert (S1 : forall w1, r1 = Ok w1 -> step_ok (Cof c p) w w1).
-  { intros w1 E1. unfold r1 in E1.
-    destruct (exists_ (w_fs w) p); [|inversion E1; subst; apply step_refl].
-    destruct (isfile (w_fs w) p).
-    - inversion E1; subst. destruct (c_temp c) eqn:Et.
-      + apply (step_trans _ w (do_remove w p)); [apply step_remove; auto|]. apply step_rmtree; auto.
-      + apply step_remove; auto.
-    - destruct (c_ext c); [discriminate|]. inversion E1; subst. apply step_rmtree; auto. }
-  destruct r1 as [w1|k]; [|inversion H; subst; apply step_refl].
-  specialize (S1 w1 eq_refl).
-  destruct (c_temp c && is_prefix (c_tmp c) p && isdir (w_fs w1) (c_tmp c)) eqn:Ef;
-    inversion H; subst; auto.
-  eapply step_trans; eauto. apply step_rmtree; auto. apply Qt.
-  apply andb_true_iff in Ef. destruct Ef as [Ef _]. apply andb_true_iff in Ef. tauto.
+  assert (RM : step_ok (Cof c p) w (if c_temp c then do_rmtree (do_remove w p) (dirname p) else do_remove w p)).
+  { destruct (c_temp c) eqn:Et.
+    - apply (step_trans _ w (do_remove w p)); [apply step_remove; auto|]. apply step_rmtree; auto.
+    - apply step_remove; auto. }
+  destruct (exists_ (w_fs w) p); [|inversion E1; subst; apply step_refl].
+  destruct (isfile (w_fs w) p); [inversion E1; subst; exact RM|].
+  destruct (c_ext c).
+  - destruct (isdir (w_fs w) p); [discriminate|]. inversion E1; subst; exact RM.
+  - destruct (isdir (w_fs w) p); [|discriminate]. inversion E1; subst. apply step_rmtree; auto.
 Qed.
 
-Lemma lookup_filter_some : forall (f : path * bool -> bool) fs p,
+Theorem clear_effects : forall c p w r w',
+  (c_temp c = true -> inside (c_tmp c) p) ->
+  clear c p w = (r, w') -> step_ok (Cof c p) w w'.
+Proof.
+  intros c p w r w' Hin H. unfold clear in H.
+  destruct (clear_end c p w) as [w1|k] eqn:E1; [|inversion H; subst; apply step_refl].
+  pose proof (clear_end_step c p w w1 Hin E1) as S1.
+  destruct (c_temp c && is_prefix (c_tmp c) p && isdir (w_fs w1) (c_tmp c)) eqn:Ef;
+    inversion H; subst; auto.
+  eapply step_trans; eauto. apply step_rmtree; [apply Cof_upward|].
+  apply andb_true_iff in Ef. destruct Ef as [Ef _]. apply andb_true_iff in Ef. destruct Ef as [Et _].
+  unfold Cof. rewrite Et. apply prefix_refl.
+Qed.
+
+Lemma lookup_filter_some : forall (f : path * fkind -> bool) fs p,
   lookup (filter f fs) p <> None -> lookup fs p <> None.
 Proof.
   intros f fs p. induction fs as [|[q k] fs IH]; simpl; auto.
   destruct (f (q, k)); simpl; destruct (path_eqb q p); auto; discriminate.
 Qed.
 
-Lemma exists_filter : forall (f : path * bool -> bool) fs p,
+Lemma exists_filter : forall (f : path * fkind -> bool) fs p,
   exists_ fs p = false -> exists_ (filter f fs) p = false.
 Proof.
   intros f fs p H. unfold exists_ in *. destruct p as [|s p]; auto.
@@ -529,7 +532,7 @@ Proof.
   rewrite lookup_filter_drop; auto. intros k. simpl. apply negb_false_iff. apply path_eqb_refl.
 Qed.
 
-Lemma isdir_filter_keep : forall (f : path * bool -> bool) fs p,
+Lemma isdir_filter_keep : forall (f : path * fkind -> bool) fs p,
   (forall k, f (p, k) = true) -> isdir (filter f fs) p = isdir fs p.
 Proof. intros. unfold isdir. destruct p; auto. now rewrite lookup_filter_keep. Qed.
 
@@ -541,6 +544,50 @@ Qed.
 
 (* after a successful clear the path is gone, and for a temp Filer so is
    everything at or below the mkdtemp directory *)
+Lemma clear_end_gone : forall c p w w1,
+  clear_end c p w = Ok w1 -> p <> [] -> exists_ (w_fs w1) p = false.
+Proof.
+  intros c p w w1 E1 Hn. unfold clear_end in E1.
+  assert (RM : exists_ (w_fs (if c_temp c then do_rmtree (do_remove w p) (dirname p) else do_remove w p)) p = false).
+  { destruct (c_temp c); simpl; [apply exists_filter|]; now apply remove_gone. }
+  destruct (exists_ (w_fs w) p) eqn:Ex; [|inversion E1; subst; auto].
+  destruct (isfile (w_fs w) p); [inversion E1; subst; exact RM|].
+  destruct (c_ext c).
+  - destruct (isdir (w_fs w) p); [discriminate|]. inversion E1; subst; exact RM.
+  - destruct (isdir (w_fs w) p); [|discriminate]. inversion E1; subst. simpl.
+    apply rmtree_gone; auto. apply prefix_refl.
+Qed.
+
+Lemma clear_end_tmp : forall c p w w1,
+  clear_end c p w = Ok w1 -> c_temp c = true -> inside (c_tmp c) p -> isdir (w_fs w) (c_tmp c) = true ->
+  isdir (w_fs w1) (c_tmp c) = true \/
+  (forall q, prefix (c_tmp c) q -> q <> [] -> exists_ (w_fs w1) q = false).
+Proof.
+  intros c p w w1 E1 Et Hin Hd. unfold clear_end in E1. rewrite Et in E1.
+  assert (Kp : forall k : fkind, negb (path_eqb p (fst (c_tmp c, k))) = true).
+  { intros k. simpl. apply negb_true_iff. destruct (path_eqb p (c_tmp c)) eqn:E; auto.
+    apply path_eqb_eq in E. subst p. exfalso. eapply prefix_inside_absurd; eauto. apply prefix_refl. }
+  assert (Kt : forall k : fkind, negb (is_prefix p (fst (c_tmp c, k))) = true).
+  { intros k. simpl. apply negb_true_iff. destruct (is_prefix p (c_tmp c)) eqn:E; auto.
+    apply is_prefix_spec in E. exfalso. eapply prefix_inside_absurd; eauto. }
+  assert (RM : isdir (w_fs (do_rmtree (do_remove w p) (dirname p))) (c_tmp c) = true \/
+               (forall q, prefix (c_tmp c) q -> q <> [] ->
+                          exists_ (w_fs (do_rmtree (do_remove w p) (dirname p))) q = false)).
+  { simpl. destruct (is_prefix (dirname p) (c_tmp c)) eqn:Ed.
+    - right. apply is_prefix_spec in Ed.
+      assert (Heq : dirname p = c_tmp c).
+      { apply prefix_antisym; auto. destruct Hin as (s & t & ->). apply dirname_prefix. }
+      rewrite Heq. intros q Hq Hqn. now apply rmtree_gone.
+    - left. rewrite isdir_filter_keep; [rewrite isdir_filter_keep; auto|].
+      intros k. simpl. now rewrite Ed. }
+  destruct (exists_ (w_fs w) p); [|inversion E1; subst; now left].
+  destruct (isfile (w_fs w) p); [inversion E1; subst; exact RM|].
+  destruct (c_ext c).
+  - destruct (isdir (w_fs w) p); [discriminate|]. inversion E1; subst; exact RM.
+  - destruct (isdir (w_fs w) p); [|discriminate]. inversion E1; subst. simpl. left.
+    rewrite isdir_filter_keep; auto.
+Qed.
+
 Theorem clear_removes : forall c p w w',
   clear c p w = (Ok tt, w') -> p <> [] ->
   exists_ (w_fs w') p = false /\
@@ -548,54 +595,18 @@ Theorem clear_removes : forall c p w w',
    forall q, prefix (c_tmp c) q -> q <> [] -> exists_ (w_fs w') q = false).
 Proof.
   intros c p w w' H Hn. unfold clear in H.
-  set (r1 := if exists_ (w_fs w) p
-             then if isfile (w_fs w) p
-                  then Ok (if c_temp c then do_rmtree (do_remove w p) (dirname p) else do_remove w p)
-                  else if c_ext c then Exc OSErr else Ok (do_rmtree w p)
-             else Ok w) in *.
-  destruct r1 as [w1|k] eqn:E1; [|discriminate].
-  (* p is gone in w1 *)
-  assert (G1 : exists_ (w_fs w1) p = false).
-  { unfold r1 in E1. destruct (exists_ (w_fs w) p) eqn:Ex; [|inversion E1; subst; auto].
-    destruct (isfile (w_fs w) p).
-    - inversion E1; subst. destruct (c_temp c); simpl.
-      + apply exists_filter. now apply remove_gone.
-      + now apply remove_gone.
-    - destruct (c_ext c); [discriminate|]. inversion E1; subst. simpl.
-      apply rmtree_gone; auto. apply prefix_refl. }
-  (* the temp directory is still there in w1, or everything below it is already gone *)
-  assert (G2 : c_temp c = true -> inside (c_tmp c) p -> isdir (w_fs w) (c_tmp c) = true ->
-               isdir (w_fs w1) (c_tmp c) = true \/
-               (forall q, prefix (c_tmp c) q -> q <> [] -> exists_ (w_fs w1) q = false)).
-  { intros Et Hin Hd. unfold r1 in E1. rewrite Et in E1.
-    assert (Kp : forall k : bool, negb (path_eqb p (fst (c_tmp c, k))) = true).
-    { intros k. simpl. apply negb_true_iff. destruct (path_eqb p (c_tmp c)) eqn:E; auto.
-      apply path_eqb_eq in E. subst p. exfalso. eapply prefix_inside_absurd; eauto. apply prefix_refl. }
-    assert (Kt : forall k : bool, negb (is_prefix p (fst (c_tmp c, k))) = true).
-    { intros k. simpl. apply negb_true_iff. destruct (is_prefix p (c_tmp c)) eqn:E; auto.
-      apply is_prefix_spec in E. exfalso. eapply prefix_inside_absurd; eauto. }
-    destruct (exists_ (w_fs w) p); [|inversion E1; subst; now left].
-    destruct (isfile (w_fs w) p).
-    - inversion E1; subst. simpl.
-      destruct (is_prefix (dirname p) (c_tmp c)) eqn:Ed.
-      + right. apply is_prefix_spec in Ed.
-        assert (dirname p = c_tmp c).
-        { apply prefix_antisym; auto. destruct Hin as (s & t & ->). apply dirname_prefix. }
-        rewrite H0. intros q Hq Hqn. now apply rmtree_gone.
-      + left. rewrite isdir_filter_keep; [rewrite isdir_filter_keep; auto|].
-        intros k. simpl. now rewrite Ed.
-    - destruct (c_ext c); [discriminate|]. inversion E1; subst. simpl. left.
-      rewrite isdir_filter_keep; auto. }
+  destruct (clear_end c p w) as [w1|k] eqn:E1; [|discriminate].
+  pose proof (clear_end_gone c p w w1 E1 Hn) as G1.
   destruct (c_temp c && is_prefix (c_tmp c) p && isdir (w_fs w1) (c_tmp c)) eqn:Ef;
     inversion H; subst; clear H.
   - split.
     + simpl. now apply exists_filter.
     + intros _ _ _ q Hq Hqn. simpl. now apply rmtree_gone.
   - split; auto. intros Et Hin Hd q Hq Hqn.
-    destruct (G2 Et Hin Hd) as [Hk|Hg]; auto.
+    destruct (clear_end_tmp c p w w' E1 Et Hin Hd) as [Hk|Hg]; auto.
     rewrite Et, Hk in Ef. simpl in Ef.
-    assert (is_prefix (c_tmp c) p = true) by (apply is_prefix_spec; now apply inside_prefix).
-    rewrite H in Ef. discriminate.
+    assert (Hp : is_prefix (c_tmp c) p = true) by (apply is_prefix_spec; now apply inside_prefix).
+    rewrite Hp in Ef. discriminate.
 Qed.
 
 Definition is_rm (e : eff) : Prop := match e with RmTree _ | RmFile _ => True | _ => False end.
@@ -603,8 +614,8 @@ Definition is_rm (e : eff) : Prop := match e with RmTree _ | RmFile _ => True | 
 Lemma clear_only_removes : forall c p w r w',
   clear c p w = (r, w') -> exists l, w_log w' = w_log w ++ l /\ Forall is_rm l.
 Proof.
-  intros c p w r w' H. unfold clear in H.
-  destruct (exists_ (w_fs w) p); [destruct (isfile (w_fs w) p); [|destruct (c_ext c)]|];
+  intros c p w r w' H. unfold clear, clear_end in H.
+  destruct (exists_ (w_fs w) p); [destruct (isfile (w_fs w) p); [|destruct (c_ext c); destruct (isdir (w_fs w) p)]|];
     destruct (c_temp c); cbn [andb] in H;
     repeat match type of H with
            | context [if ?b then _ else _] => destruct b
@@ -985,4 +996,19 @@ Proof.
   intros c w p w1 hs E Hn Hm. apply history2_ok.
   - eapply constructor_env_all; eauto.
   - eapply born_good; eauto.
+Qed.
+
+(* the end of an extensioned path that exists but is neither a regular file nor a directory (FIFO, unix
+   socket, symbolic link to a directory): a persistent Filer's clear removes exactly that end *)
+Theorem clear_ext_other : forall c p w,
+  c_ext c = true -> c_temp c = false ->
+  exists_ (w_fs w) p = true -> isfile (w_fs w) p = false -> isdir (w_fs w) p = false ->
+  clear c p w = (Ok tt, do_remove w p) /\
+  (forall q, q <> p -> exists_ (w_fs (do_remove w p)) q = exists_ (w_fs w) q).
+Proof.
+  intros c p w He Ht Hx Hf Hd. split.
+  - unfold clear, clear_end. rewrite Hx, Hf, He, Hd, Ht. reflexivity.
+  - intros q Hq. unfold exists_. destruct q as [|s q]; auto. simpl.
+    rewrite lookup_filter_keep; auto. intros k. simpl. apply negb_true_iff.
+    destruct (path_eqb p (s :: q)) eqn:E; auto. apply path_eqb_eq in E. congruence.
 Qed.
